@@ -37,6 +37,10 @@ func cmdGen(args []string) {
 			b = g.behC05()
 		case "C06":
 			b = g.behC06()
+		case "C07":
+			b = g.behC07()
+		case "C08":
+			b = g.behC08()
 		default:
 			if fn, ok := genFns[*prop]; ok {
 				b = fn(g)
@@ -74,7 +78,7 @@ func (g *gen) text(max int) string {
 }
 
 func baseCfg() M {
-	return M{"auth": "none", "tls": "nil", "params": M{}, "version": "", "mw": []any{}, "term": "none", "limit": 8192}
+	return M{"auth": "none", "tls": "nil", "params": M{}, "version": "", "mw": []any{}, "term": "none", "limit": 65536}
 }
 
 func startup(user string) M {
@@ -206,6 +210,9 @@ func (g *gen) name() string { return g.pick("", "a", "b", "s1") }
 func (g *gen) behC06() M {
 	steps := []any{startup("u")}
 	n := 1 + g.rng.Intn(30)
+	// C06 does not judge what Close does to a name (that is C07): a closed
+	// name is not referred to again until it is defined anew.
+	closedS, closedP := map[string]bool{}, map[string]bool{}
 	for i := 0; i < n; i++ {
 		var m M
 		switch g.rng.Intn(14) {
@@ -239,6 +246,31 @@ func (g *gen) behC06() M {
 				m = M{"t": g.pick("d", "c", "f")}
 			}
 		}
+		switch run.S(m, "t") {
+		case "B":
+			if closedS[run.S(m, "stmt")] || closedP[run.S(m, "portal")] {
+				continue
+			}
+		case "D":
+			if (run.S(m, "kind") == "S" && closedS[run.S(m, "name")]) || (run.S(m, "kind") == "P" && closedP[run.S(m, "name")]) {
+				continue
+			}
+		case "E":
+			if closedP[run.S(m, "portal")] {
+				continue
+			}
+		case "P":
+			if closedS[run.S(m, "name")] {
+				continue
+			}
+		case "C":
+			// once closed a name stays unused: whether it was removed is not C06's question
+			if run.S(m, "kind") == "S" {
+				closedS[run.S(m, "name")] = true
+			} else {
+				closedP[run.S(m, "name")] = true
+			}
+		}
 		st := send(m)
 		if g.chance(0.3) {
 			st["nowait"] = true
@@ -247,4 +279,150 @@ func (g *gen) behC06() M {
 	}
 	steps = append(steps, send(M{"t": "S"}))
 	return M{"cfg": baseCfg(), "steps": steps}
+}
+
+// behC07: name-resolution histories: every Parse is a fresh definition; a Sync
+// follows every message.
+func (g *gen) behC07() M {
+	steps := []any{startup("u")}
+	n := 1 + g.rng.Intn(30)
+	pfrom := map[string]string{}
+	tainted := map[string]bool{}
+	for i := 0; i < n; i++ {
+		var m M
+		switch g.rng.Intn(9) {
+		case 0, 1:
+			g.id++
+			id := g.id
+			st := M{"id": id, "cols": []any{M{"name": fmt.Sprintf("v%d", id), "oid": 25}}, "oids": []any{},
+				"prog": []any{M{"op": "row", "cells": []any{M{"c": "v", "val": fmt.Sprintf("s:r%d", id)}}}, M{"op": "complete", "tag": "OK"}, M{"op": "ret", "r": "nil"}}}
+			m = M{"t": "P", "name": g.name(), "q": M{"id": id, "parse": "ok", "stmts": []any{st}}, "noids": 0}
+		case 2, 3:
+			np := g.rng.Intn(3)
+			params := []any{}
+			for j := 0; j < np; j++ {
+				if g.chance(0.2) {
+					params = append(params, M{"null": true})
+				} else {
+					params = append(params, M{"null": false, "cls": "short"})
+				}
+			}
+			rf := []any{}
+			if g.chance(0.5) {
+				rf = []any{g.rng.Intn(2)}
+			}
+			m = M{"t": "B", "portal": g.name(), "stmt": g.name(), "pfmt": []any{}, "params": params, "rfmt": rf}
+			pfrom[run.S(m, "portal")] = run.S(m, "stmt")
+			delete(tainted, run.S(m, "portal"))
+		case 4:
+			m = M{"t": "D", "kind": "S", "name": g.name()}
+		case 5:
+			m = M{"t": "D", "kind": "P", "name": g.name()}
+		case 6, 7:
+			m = M{"t": "E", "portal": g.name(), "max": 0}
+		case 8:
+			m = M{"t": "C", "kind": g.pick("S", "P"), "name": g.name()}
+			if run.S(m, "kind") == "S" {
+				for p, s := range pfrom {
+					if s == run.S(m, "name") {
+						tainted[p] = true
+					}
+				}
+			}
+		}
+		if t := run.S(m, "t"); (t == "E" && tainted[run.S(m, "portal")]) || (t == "D" && run.S(m, "kind") == "P" && tainted[run.S(m, "name")]) {
+			continue
+		}
+		st := send(m)
+		st["nowait"] = true
+		steps = append(steps, st, send(M{"t": "S"}))
+	}
+	return M{"cfg": baseCfg(), "steps": steps}
+}
+
+var c08Types = []int{16, 21, 23, 20, 701, 25, 1043, 17}
+
+func (g *gen) codeList(n int) []any {
+	switch g.rng.Intn(4) {
+	case 0:
+		return []any{}
+	case 1:
+		return []any{g.rng.Intn(2)}
+	}
+	if n < 2 {
+		return []any{g.rng.Intn(2)}
+	}
+	out := make([]any, n)
+	for i := range out {
+		out[i] = g.rng.Intn(2)
+	}
+	return out
+}
+
+// behC08: Bind parameters and format codes with rich values: up to 300
+// parameters, typed declared parameters, random result columns.
+func (g *gen) behC08() M {
+	steps := []any{startup("u")}
+	rounds := 1 + g.rng.Intn(3)
+	for r := 0; r < rounds; r++ {
+		g.id++
+		id := g.id
+		np := g.rng.Intn(6)
+		if g.chance(0.1) {
+			np = 50 + g.rng.Intn(250)
+		}
+		typed := g.chance(0.5)
+		oids := []any{}
+		if typed {
+			for i := 0; i < np; i++ {
+				oids = append(oids, c08Types[g.rng.Intn(len(c08Types))])
+			}
+		}
+		nc := 1 + g.rng.Intn(4)
+		cols := []any{}
+		for i := 0; i < nc; i++ {
+			cols = append(cols, M{"name": fmt.Sprintf("c%d", i), "oid": c08Types[g.rng.Intn(len(c08Types))]})
+		}
+		prog := []any{}
+		for i := 0; i < g.rng.Intn(4); i++ {
+			cells := []any{}
+			for j := 0; j < nc; j++ {
+				if g.chance(0.15) {
+					cells = append(cells, M{"c": "null", "nk": g.pick("nil", "ptr", "inv")})
+				} else {
+					cells = append(cells, M{"c": "v"})
+				}
+			}
+			prog = append(prog, M{"op": "row", "cells": cells})
+		}
+		prog = append(prog, M{"op": "complete", "tag": "SELECT"}, M{"op": "ret", "r": "nil"})
+		st := M{"id": id, "cols": cols, "oids": oids, "prog": prog}
+		name := g.name()
+		portal := g.name()
+		steps = append(steps, send(M{"t": "P", "name": name, "q": M{"id": id, "parse": "ok", "stmts": []any{st}}, "noids": g.rng.Intn(3)}))
+		if g.chance(0.5) {
+			steps = append(steps, send(M{"t": "D", "kind": "S", "name": name}))
+		}
+		params := []any{}
+		for i := 0; i < np; i++ {
+			switch {
+			case g.chance(0.15):
+				params = append(params, M{"null": true})
+			case !typed && g.chance(0.15):
+				params = append(params, M{"null": false, "cls": "empty"})
+			case !typed && g.chance(0.1):
+				params = append(params, M{"null": false, "cls": "nul"})
+			default:
+				params = append(params, M{"null": false, "cls": "short"})
+			}
+		}
+		steps = append(steps, send(M{"t": "B", "portal": portal, "stmt": name, "pfmt": g.codeList(np), "params": params, "rfmt": g.codeList(nc)}))
+		if g.chance(0.7) {
+			steps = append(steps, send(M{"t": "D", "kind": "P", "name": portal}))
+		}
+		steps = append(steps, send(M{"t": "E", "portal": portal, "max": 0}), send(M{"t": "S"}))
+	}
+	cfg := baseCfg()
+	cfg["limit"] = 1 << 20
+	return M{"cfg": cfg, "steps": steps}
 }
